@@ -1,4 +1,4 @@
-(* C19 — proofs about the Ord model (EqOrdModel.v: cmp_iter as coded, cmp_fixed repaired). *)
+(* C19 — proofs about the Ord model (EqOrdModel.v: cmp_iter as coded, cmp_iter repaired). *)
 From Coq Require Import Lia String.
 From Verif Require Import EqOrdModel TheoremA EqOrdProofs.
 
@@ -182,7 +182,7 @@ Section CmpProofs.
 
   (* same kind <-> the code's match has an arm *)
   Lemma same_kind_cmp x y : dnode_kind x = dnode_kind y ->
-    dnode_cmp_fixed kcmp x y = Some (dnode_cmp_total kcmp x y).
+    dnode_cmp kcmp x y = Some (dnode_cmp_total kcmp x y).
   Proof. destruct x, y; cbn; intro H; try discriminate H; reflexivity. Qed.
 
   (* ---------------------------------------------------------------- display sequences are well-bracketed *)
@@ -215,7 +215,7 @@ Section CmpProofs.
 
   (* two well-bracketed sequences over the same root kinds: the zip neither panics nor truncates *)
   Lemma zip_cmp_lex : forall l1 l2 ks, closedk ks l1 -> closedk ks l2 ->
-    zip_cmp (dnode_cmp_fixed kcmp) l1 l2 = Ok (lex_cmp kcmp l1 l2).
+    zip_cmp (dnode_cmp kcmp) l1 l2 = Ok (lex_cmp kcmp l1 l2).
   Proof.
     induction l1 as [|x r IH]; intros [|y s] ks H1 H2; cbn in *.
     - reflexivity.
@@ -459,7 +459,7 @@ Proof.
   rewrite !dnodes_norm. intro H. apply norm_inj. apply (dflat_app_inj _ _ [] []). rewrite !app_nil_r. exact H.
 Qed.
 
-Section CmpFixed.
+Section CmpSpec.
   Variable kcmp : key -> key -> comparison.
   Hypothesis to_key : total_order kcmp.
 
@@ -493,10 +493,10 @@ Section CmpFixed.
   Lemma dnodes_closed m : closedk [0%N] (dnodes m).
   Proof. rewrite dnodes_norm, <- (app_nil_r (dflat (norm m))). apply dflat_closed. reflexivity. Qed.
 
-  (* the repaired comparison never panics, never truncates, and is the specification order *)
-  Theorem cmp_fixed_spec a b : cmp_fixed kcmp a b = Ok (spec_cmp kcmp a b).
+  (* the comparison never panics, never truncates, and is the specification order *)
+  Theorem cmp_iter_spec a b : cmp_iter kcmp a b = Ok (spec_cmp kcmp a b).
   Proof.
-    unfold cmp_fixed, spec_cmp. rewrite (zip_cmp_lex kcmp to_key _ _ [0%N] (dnodes_closed a) (dnodes_closed b)).
+    unfold cmp_iter, spec_cmp. rewrite (zip_cmp_lex kcmp to_key _ _ [0%N] (dnodes_closed a) (dnodes_closed b)).
     destruct (dnodes_head a) as [na [ta Ea]], (dnodes_head b) as [nb [tb Eb]]. rewrite Ea, Eb. cbn.
     unfold dnode_cmp_total. cbn. destruct (fname_cmp (frag_name a) (frag_name b)); reflexivity.
   Qed.
@@ -512,152 +512,38 @@ Section CmpFixed.
   Theorem spec_cmp_trans a b c : spec_cmp kcmp a b = Lt -> spec_cmp kcmp b c = Lt -> spec_cmp kcmp a c = Lt.
   Proof. apply (to_trans _ (to_lex kcmp to_key)). Qed.
 
-  (* cmp_total_order for the repaired code: a total order whose Equal is structural equality (and eq_fixed) *)
-  Theorem cmp_fixed_total_order :
-    (forall a b, exists c, cmp_fixed kcmp a b = Ok c) /\
-    (forall a b, cmp_fixed kcmp a b = Ok Eq <-> a = b) /\
-    (forall a b c, cmp_fixed kcmp a b = Ok c -> cmp_fixed kcmp b a = Ok (CompOpp c)) /\
-    (forall a b c, cmp_fixed kcmp a b = Ok Lt -> cmp_fixed kcmp b c = Ok Lt -> cmp_fixed kcmp a c = Ok Lt).
+  (* cmp_total_order: a total order whose Equal is structural equality (and ==) *)
+  Theorem cmp_total_order :
+    (forall a b, exists c, cmp_iter kcmp a b = Ok c) /\
+    (forall a b, cmp_iter kcmp a b = Ok Eq <-> a = b) /\
+    (forall a b c, cmp_iter kcmp a b = Ok c -> cmp_iter kcmp b a = Ok (CompOpp c)) /\
+    (forall a b c, cmp_iter kcmp a b = Ok Lt -> cmp_iter kcmp b c = Ok Lt -> cmp_iter kcmp a c = Ok Lt).
   Proof.
     repeat split.
-    - intros a b. eexists. apply cmp_fixed_spec.
-    - rewrite cmp_fixed_spec. intro H. injection H as H. apply spec_cmp_eq. exact H.
-    - intros ->. rewrite cmp_fixed_spec. f_equal. apply spec_cmp_eq. reflexivity.
-    - intros a b c. rewrite !cmp_fixed_spec. intro H. injection H as <-. f_equal. apply spec_cmp_antisym.
-    - intros a b c. rewrite !cmp_fixed_spec. intros H1 H2. injection H1 as H1. injection H2 as H2.
+    - intros a b. eexists. apply cmp_iter_spec.
+    - rewrite cmp_iter_spec. intro H. injection H as H. apply spec_cmp_eq. exact H.
+    - intros ->. rewrite cmp_iter_spec. f_equal. apply spec_cmp_eq. reflexivity.
+    - intros a b c. rewrite !cmp_iter_spec. intro H. injection H as <-. f_equal. apply spec_cmp_antisym.
+    - intros a b c. rewrite !cmp_iter_spec. intros H1 H2. injection H1 as H1. injection H2 as H2.
       f_equal. apply (spec_cmp_trans a b c H1 H2).
   Qed.
 
-  Theorem cmp_fixed_eq_fixed a b : cmp_fixed kcmp a b = Ok Eq <-> eq_fixed a b = true.
-  Proof. rewrite eq_fixed_structural. apply cmp_fixed_total_order. Qed.
+  Theorem cmp_eq_iff_eq a b : cmp_iter kcmp a b = Ok Eq <-> eq_iter a b = true.
+  Proof. rewrite eq_structural. apply cmp_total_order. Qed.
 
-  (* ---------------------------------------------------------------- the code as it exists: what is true *)
-  (* per pair the code's comparison is antisymmetric, hence so is the zip: no panic => cmp b a = reverse *)
-  Lemma dnode_cmp_antisym x y : dnode_cmp kcmp y x = option_map CompOpp (dnode_cmp kcmp x y).
-  Proof.
-    destruct x, y; cbn; try reflexivity; f_equal;
-      try apply (to_antisym _ to_fname); try apply (to_antisym _ to_N); try apply (to_antisym _ to_key);
-      try apply (to_antisym _ to_bytes).
-  Qed.
-
-  Lemma zip_cmp_antisym : forall l1 l2 c,
-    zip_cmp (dnode_cmp kcmp) l1 l2 = Ok c -> zip_cmp (dnode_cmp kcmp) l2 l1 = Ok (CompOpp c).
-  Proof.
-    induction l1 as [|x r IH]; intros [|y s] c; cbn; try (intro H; injection H as <-; reflexivity).
-    rewrite (dnode_cmp_antisym x y). destruct (dnode_cmp kcmp x y) as [[| |]|]; cbn; try discriminate.
-    - apply IH.
-    - intro H; injection H as <-; reflexivity.
-    - intro H; injection H as <-; reflexivity.
-  Qed.
-
-  Theorem cmp_iter_antisym a b c : cmp_iter kcmp a b = Ok c -> cmp_iter kcmp b a = Ok (CompOpp c).
-  Proof.
-    unfold cmp_iter. rewrite (to_antisym _ to_fname (frag_name a) (frag_name b)).
-    destruct (fname_cmp (frag_name a) (frag_name b)); cbn.
-    - apply zip_cmp_antisym.
-    - intro H; injection H as <-; reflexivity.
-    - intro H; injection H as <-; reflexivity.
-  Qed.
-
+  (* consequences in the vocabulary of Ord *)
   Theorem cmp_iter_refl a : cmp_iter kcmp a a = Ok Eq.
-  Proof.
-    unfold cmp_iter. rewrite (to_refl _ to_fname).
-    generalize (dnodes a). induction l as [|x r IH]; cbn; [reflexivity|].
-    assert (E : dnode_cmp kcmp x x = Some Eq).
-    { destruct x; cbn; f_equal; try apply (to_refl _ to_fname); try apply N.compare_refl;
-        try apply (to_refl _ to_key); try apply (to_refl _ to_bytes). }
-    rewrite E. exact IH.
-  Qed.
+  Proof. destruct cmp_total_order as [_ [H _]]. apply H. reflexivity. Qed.
+End CmpSpec.
 
-  (* terms without n-ary fragments (thresh, multi, multi_a and sorted forms): the code's order IS the
-     specification order (names determine the number of children, so the missing comparison is vacuous) *)
-  Fixpoint nary_free (m : ms) : Prop :=
-    match m with
-    | MThresh _ _ | MMulti _ _ | MSortedMulti _ _ | MMultiA _ _ | MSortedMultiA _ _ => False
-    | MAlt x | MSwap x | MCheck x | MDupIf x | MVerify x | MNonZero x | MZeroNotEqual x => nary_free x
-    | MAndV x y | MAndB x y | MOrB x y | MOrD x y | MOrC x y | MOrI x y => nary_free x /\ nary_free y
-    | MAndOr a b c => nary_free a /\ nary_free b /\ nary_free c
-    | _ => True
-    end.
-
-  Definition fixed_arity (f : fname) : N :=
-    match f with
-    | F_0 | F_1 => 0
-    | F_and_v | F_and_n | F_and_b | F_or_b | F_or_d | F_or_c | F_or_i => 2
-    | F_andor => 3
-    | _ => 1
-    end%N.
-  Definition arity_ok (d : dnode) : Prop := match d with DNode f n => n = fixed_arity f | _ => True end.
-
-  Lemma nary_free_arity m : nary_free m -> Forall arity_ok (dnodes m).
-  Proof.
-    induction m using ms_ind'; cbn [nary_free]; intro Hf; try contradiction;
-      repeat match goal with H : _ /\ _ |- _ => destruct H end.
-    1-11: cbn; repeat constructor.
-    - constructor; [reflexivity | auto].
-    - constructor; [reflexivity | auto].
-    - destruct m; cbn in *; try contradiction; repeat constructor;
-        try (specialize (IHm Hf); inversion IHm; subst; assumption);
-        try (destruct Hf; specialize (IHm (conj H H0)); cbn in IHm; inversion IHm; subst; assumption).
-      all: try (specialize (IHm Hf); cbn in IHm; exact IHm).
-    - constructor; [reflexivity | auto].
-    - constructor; [reflexivity | auto].
-    - constructor; [reflexivity | auto].
-    - constructor; [reflexivity | auto].
-    - cbn. destruct (is_true m2); constructor; try reflexivity; try apply Forall_app; auto.
-    - constructor; [reflexivity | apply Forall_app; auto].
-    - cbn. destruct (is_false m3); constructor; try reflexivity; repeat (apply Forall_app; split); auto.
-    - constructor; [reflexivity | apply Forall_app; auto].
-    - constructor; [reflexivity | apply Forall_app; auto].
-    - constructor; [reflexivity | apply Forall_app; auto].
-    - cbn. destruct (is_false m1); destruct (is_false m2); constructor; try reflexivity; try apply Forall_app; auto.
-  Qed.
-
-  Lemma zip_cmp_arity : forall l1 l2, Forall arity_ok l1 -> Forall arity_ok l2 ->
-    zip_cmp (dnode_cmp kcmp) l1 l2 = zip_cmp (dnode_cmp_fixed kcmp) l1 l2.
-  Proof.
-    induction l1 as [|x r IH]; intros [|y s] H1 H2; try reflexivity.
-    inversion H1; subst. inversion H2; subst. cbn.
-    assert (E : dnode_cmp kcmp x y = dnode_cmp_fixed kcmp x y).
-    { destruct x, y; try reflexivity. cbn in *. subst. destruct (fname_cmp f f0) eqn:E; try reflexivity.
-      apply (to_eq _ to_fname) in E. subst. rewrite N.compare_refl. reflexivity. }
-    rewrite E. destruct (dnode_cmp_fixed kcmp x y) as [[| |]|]; try reflexivity. apply IH; assumption.
-  Qed.
-
-  Theorem cmp_iter_nary_free a b : nary_free a -> nary_free b -> cmp_iter kcmp a b = Ok (spec_cmp kcmp a b).
-  Proof.
-    intros Ha Hb. rewrite <- cmp_fixed_spec. unfold cmp_iter, cmp_fixed.
-    rewrite (zip_cmp_arity _ _ (nary_free_arity a Ha) (nary_free_arity b Hb)). reflexivity.
-  Qed.
-End CmpFixed.
-
-(* ------------------------------------------------------------------ refutations (findings about /repo) *)
 Local Open Scope N_scope.
 
-(* or_b(multi(1,K0,K1),s:pk(K2)).cmp(or_b(multi(1,K0,K1,K2),s:pk(K0))) reaches unreachable! *)
-Theorem cmp_total_refuted_panic : exists a b, cmp_iter N.compare a b = Panic 356.
-Proof.
-  exists (MOrB (MMulti 1 [0; 1]) (w_spk 2)), (MOrB (MMulti 1 [0; 1; 2]) (w_spk 0)). vm_compute. reflexivity.
-Qed.
-
-(* cmp says Equal for structurally different values (and == says different): multi(1,K0,K1) vs multi(1,K0,K1,K2) *)
-Theorem cmp_eq_refuted : exists a b, cmp_iter N.compare a b = Ok Eq /\ a <> b /\ eq_iter a b = false.
-Proof.
-  exists (MMulti 1 [0; 1]), (MMulti 1 [0; 1; 2]). split; [vm_compute; reflexivity | split; [discriminate | vm_compute; reflexivity]].
-Qed.
-
-(* == says equal, cmp says Less: thresh(1,pk(0),s:pk(1)) vs thresh(2,pk(0),s:pk(1)) *)
-Theorem cmp_eq_disagree_refuted : exists a b, eq_iter a b = true /\ cmp_iter N.compare a b = Ok Lt.
-Proof.
-  exists (MThresh 1 [w_pk 0; w_spk 1]), (MThresh 2 [w_pk 0; w_spk 1]). split; vm_compute; reflexivity.
-Qed.
-
-(* not a total order: a = b (Equal), b < c, yet a = c (Equal) *)
-Theorem cmp_trans_refuted :
-  exists a b c, cmp_iter N.compare a b = Ok Eq /\ cmp_iter N.compare b c = Ok Lt /\ cmp_iter N.compare a c = Ok Eq.
-Proof.
-  exists (MMulti 1 [0; 1]), (MMulti 1 [0; 1; 2]), (MMulti 1 [0; 1; 3]). repeat split; vm_compute; reflexivity.
-Qed.
+(* the pairs on which the code before 32d9f676 panicked / answered Equal *)
+Example cmp_regression_witnesses :
+  cmp_iter N.compare (MOrB (MMulti 1 [0; 1]) (w_spk 2)) (MOrB (MMulti 1 [0; 1; 2]) (w_spk 0)) = Ok Lt /\
+  cmp_iter N.compare (MMulti 1 [0; 1]) (MMulti 1 [0; 1; 2]) = Ok Lt /\
+  cmp_iter N.compare (MThresh 1 [w_pk 0; w_spk 1]) (MThresh 2 [w_pk 0; w_spk 1]) = Ok Lt.
+Proof. vm_compute. repeat split. Qed.
 
 (* non-vacuity: the key order used in the runs is a total order *)
 Example key_order_example : total_order N.compare.
